@@ -1,6 +1,7 @@
 package props
 
 import (
+	"encoding/json"
 	"fmt"
 	"net"
 	"sort"
@@ -25,15 +26,58 @@ var c19Ops = []string{"Start", "Client", "Protocol", "ReattachConfig", "ID", "Ex
 func init() {
 	Register(&Prop{ID: "C19",
 		Meta: Meta{Level: "exploration", Race: true,
-			Rule:       "one Client; a history of 2-8 operations over {Start, Client, Protocol, ReattachConfig, ID, Exited, Kill} issued sequentially or from up to 4 concurrent goroutines with drawn offsets; plugin kinds {starts correctly net/rpc, starts correctly gRPC, fails the handshake, times out, exits early} x launch {command, custom runner}; all sequences of length <=3 over {Start, Client, Kill} enumerated per plugin kind and launch, longer and concurrent histories seeded with schedule noise in Client.Start/Client/Kill; thorough tier repeats a sample under the race detector. Oracle: the kernel saw at most one spawn for this client (and no spawn after Kill returned), every successful Start returned the identical address and every successful Client the identical protocol client, no call hangs or panics, and the invoke/return history (stamped with the simulator's global event sequence numbers) is linearizable (porcupine) against a sequential reference model of the Client: {fresh, started(addr), failed, killed}",
+			Rule:       "one Client; a history of 2-8 operations over {Start, Client, Protocol, ReattachConfig, ID, Exited, Kill} issued sequentially or from up to 4 concurrent goroutines with drawn offsets; plus ONE CONTEXT SWITCH PLACED AT EVERY STATEMENT: stage 0 profiles the go-plugin statements goroutine 0 passes inside each operation of Start, Client, Kill (well-behaved and failing plugins, command and custom runner), stage 1 runs one case per (operation A, statement, operation B) in which goroutine 1 issues B exactly while goroutine 0 is at that statement of A; plugin kinds {starts correctly net/rpc, starts correctly gRPC, fails the handshake, times out, exits early} x launch {command, custom runner}; all sequences of length <=3 over {Start, Client, Kill} enumerated per plugin kind and launch, longer and concurrent histories seeded with schedule noise in Client.Start/Client/Kill; thorough tier repeats a sample under the race detector. Oracle: the kernel saw at most one spawn for this client (and no spawn after Kill returned), every successful Start returned the identical address and every successful Client the identical protocol client, no call hangs or panics, and the invoke/return history (stamped with the simulator's global event sequence numbers) is linearizable (porcupine) against a sequential reference model of the Client: {fresh, started(addr), failed, killed}",
 			Exhaustive: "all operation sequences of length <=3 over {Start, Client, Kill} x plugin kind x launch method"},
 		Plan: func(tier string, seed uint64, stage int, prev []*h.Result) []*k.Spec {
+			kinds := []string{"ok-netrpc", "ok-grpc", "bad-handshake", "timeout", "exits-early", "runner-start-fails"}
+			launches := []string{"cmd", "runner"}
+			if stage == 1 && tier != "selftest" {
+				// one context switch, placed at every statement: while goroutine 0 is at
+				// statement S of operation A (sequence Start, Client, Kill), goroutine 1
+				// issues operation B
+				bs := []string{"Client", "Kill", "Start"}
+				maxOcc := 1
+				if tier == "thorough" {
+					bs = []string{"Client", "Kill", "Start", "Protocol", "ReattachConfig", "Exited"}
+					maxOcc = 2
+				}
+				var out []*k.Spec
+				for _, pr := range prev {
+					if pr.Spec == nil || pr.Spec.P("mode", "") != "preempt-profile" {
+						continue
+					}
+					var sites []c19Site
+					json.Unmarshal([]byte(pr.Info["opsites"]), &sites)
+					for _, st := range sites {
+						for occ := st.First; occ <= st.Last && occ < st.First+maxOcc; occ++ {
+							for _, b := range bs {
+								s := sp("C19", fmt.Sprintf("preempt/%s/%s/%s@%s#%d/%s", pr.Spec.P("kind", ""), pr.Spec.P("launch", ""), st.Op, st.Site, occ, b), seed,
+									cp(pr.Spec.Params, "mode", "preempt", "b", b))
+								s.Triggers = []*k.Trigger{{On: "site", Proc: "host", Key: st.Site, Occ: occ, Act: "callsleep:b:1000000"}}
+								out = append(out, s)
+							}
+						}
+					}
+				}
+				return out
+			}
 			if stage > 0 {
 				return nil
 			}
-			kinds := []string{"ok-netrpc", "ok-grpc", "bad-handshake", "timeout", "exits-early", "runner-start-fails"}
-			launches := []string{"cmd", "runner"}
 			var out []*k.Spec
+			if tier != "selftest" {
+				pk := []string{"ok-grpc", "bad-handshake"}
+				if tier == "thorough" {
+					pk = []string{"ok-netrpc", "ok-grpc", "bad-handshake", "exits-early", "runner-start-fails"}
+				}
+				for _, kd := range pk {
+					for _, l := range launches {
+						s := sp("C19", fmt.Sprintf("preempt-profile/%s/%s", kd, l), seed, P("kind", kd, "launch", l, "ops", "Start,Client,Kill", "mode", "preempt-profile"))
+						s.Profile = true
+						out = append(out, s)
+					}
+				}
+			}
 			if tier != "selftest" {
 				base := []string{"Start", "Client", "Kill"}
 				var seqs [][]string
@@ -81,6 +125,15 @@ func init() {
 		},
 		Run: runC19,
 	})
+}
+
+// c19Site: a go-plugin statement a host goroutine passes inside one operation
+// of the profiled sequence.
+type c19Site struct {
+	Op    string `json:"o"`
+	Site  string `json:"s"`
+	First int    `json:"f"`
+	Last  int    `json:"l"`
 }
 
 // sequential reference model of one Client for porcupine
@@ -286,7 +339,41 @@ func runC19(r *h.Run) {
 		}
 		mu.Unlock()
 	}
-	if mode == "seq" {
+	if mode == "preempt-profile" || mode == "preempt" {
+		var bwg sync.WaitGroup
+		var bonce sync.Once
+		w.Callbacks = map[string]func(){"b": func() {
+			bonce.Do(func() {
+				bwg.Add(1)
+				go k.Trap(func() { defer bwg.Done(); do(1, r.Spec.P("b", "Client")) })
+			})
+		}}
+		var sites []c19Site
+		for _, op := range ops {
+			mark := w.SitePass()
+			do(0, op)
+			if r.Spec.Profile {
+				end := w.SitePass()
+				var add []c19Site
+				for key, n := range end {
+					proc, site, ok := strings.Cut(key, " ")
+					if ok && proc == "host" && n > mark[key] {
+						add = append(add, c19Site{Op: op, Site: site, First: mark[key] + 1, Last: n})
+					}
+				}
+				sort.Slice(add, func(i, j int) bool { return add[i].Site < add[j].Site })
+				sites = append(sites, add...)
+			}
+		}
+		bwg.Wait()
+		if r.Spec.Profile {
+			js, _ := json.Marshal(sites)
+			r.Info["opsites"] = string(js)
+		}
+		if mode == "preempt" && w.FaultCount("trigger.callsleep") == 0 {
+			w.Probe("preempt.site-not-reached")
+		}
+	} else if mode == "seq" {
 		for _, op := range ops {
 			do(0, op)
 		}
@@ -334,6 +421,12 @@ func runC19(r *h.Run) {
 		r.Violate("launched-twice", ctx+" runnerfunc", fmt.Sprintf("RunnerFunc was invoked %d times; history: %s", w.ProbeCount("runnerfunc.called"), renderHist(hist)))
 	}
 	// identical addresses / clients (before any Kill)
+	firstKillCall := uint64(0)
+	for _, op := range hist {
+		if op.Input.(c19In).Op == "Kill" && (firstKillCall == 0 || uint64(op.Call) < firstKillCall) {
+			firstKillCall = uint64(op.Call)
+		}
+	}
 	addrs, clients := map[string]bool{}, map[string]bool{}
 	for _, op := range hist {
 		out := op.Output.(c19Out)
@@ -344,7 +437,8 @@ func runC19(r *h.Run) {
 		case "Start":
 			addrs[out.Addr] = true
 		case "Client":
-			if firstKillRet == 0 {
+			// (clients handed out before any Kill was even issued)
+			if firstKillCall == 0 || uint64(op.Return) < firstKillCall {
 				clients[out.Addr] = true
 			}
 		}
